@@ -494,7 +494,50 @@ class C20(core.Check):
             self.count('opcode-level %s k<=%d%s (oracle only)' % ('/'.join(prog), bound,
                                                                  '' if n < cap else ' (capped)'), n)
         self.granularity(False)
-        return out + list(found.values()) + self.dead_worker_histories() + self.autoreload_self_stop()
+        return (out + list(found.values()) + self.dead_worker_histories() + self.autoreload_self_stop()
+                + self.exiting_is_terminal())
+
+    def exiting_is_terminal(self):
+        """block() samples the state between sleeps: once a thread has driven the bus to EXITING, further exit() /
+        restart() calls (a signal handler racing with the autoreloader) must leave it there, or the main thread never
+        sees EXITING.  Two shutdown requests land inside one poll interval of a real block().  Oracle only."""
+        import threading
+        import time
+        from cherrypy.process import wspbus
+        out = []
+        for second in ('exit', 'restart'):
+            bus = wspbus.Bus()
+            bus.execv = False
+            seen = []
+            done = threading.Event()
+
+            def main():
+                try:
+                    bus.block(interval=0.3)
+                except BaseException as e:       # noqa
+                    seen.append('block raised %s' % type(e).__name__)
+                done.set()
+            real_execv = bus._do_execv
+            bus._do_execv = lambda: seen.append('execv')     # restart() must not re-execute the test process
+            t = threading.Thread(target=main, daemon=True)
+            t.start()
+            time.sleep(0.05)                         # main is inside its first sleep
+            bus.exit()
+            s1 = bus.state
+            getattr(bus, second)()
+            s2 = bus.state
+            ok = done.wait(10)
+            self.count('exit(); %s() while the main thread is in block()' % second)
+            if s2 != wspbus.states.EXITING:      # (block() also joins foreign non-daemon threads: `ok` is only recorded)
+                out.append(core.Violation(
+                    'exiting-not-terminal',
+                    'exit() drove the bus to %s; a following %s() left it in %s; block() on the main thread %s'
+                    % (s1, second, s2, 'returned' if ok else 'was still polling after 10 s'),
+                    case={'sys': 'double-exit', 'second': second},
+                    observed={'after_first': str(s1), 'after_second': str(s2), 'block_returned': ok, 'seen': seen}))
+                bus.state = wspbus.states.EXITING    # let the poller end
+                break
+        return out
 
     def autoreload_self_stop(self):
         """the one stop that the worker issues itself: Autoreloader.run sees a changed file and calls bus.restart(),
